@@ -5,5 +5,5 @@ cd "$(dirname "$0")"
 /venv/bin/python -c "import decaylanguage, lark, particle, graphviz, pandas; print('decaylanguage', decaylanguage.__version__, 'particle', particle.__version__, 'lark', lark.__version__)"
 command -v dot >/dev/null && dot -V
 mkdir -p evidence replays
-[ -x tools/selftest.py ] && /venv/bin/python tools/selftest.py || true
+/venv/bin/python tools/selftest.py
 echo setup ok
